@@ -224,6 +224,49 @@ func VerifC06_SegmentLZ4_n8() { verifSegmentCompressed(8, 0) }
 // high-ratio payloads: only lengths, flag and decode path matter; replays natively with repetitive content
 func VerifC06_SegmentLZ4_n300_maxratio() { verifSegmentCompressed(300, 1) }
 
+// payloads above 128:1 need the last (256x) step of the decompressor's buffer search
+func VerifC06_SegmentLZ4_n8192_maxratio() { verifSegmentCompressed(8192, 1) }
+
+// incompressible payloads at the top of the legal range: the block the compressor returns is longer than the payload
+// (and than the 17-bit length field), the segment must fall back to the raw payload. The content is a fixed
+// pseudo-random stream, so that the real compressor behaves the same way when the harness is replayed natively.
+func verifSegmentIncompressible(n int) {
+	nd.CompressPolicy(2)
+	p := make([]byte, n)
+	st := uint32(2463534242)
+	for i := range p {
+		st ^= st << 13
+		st ^= st >> 17
+		st ^= st << 5
+		p[i] = byte(st >> 11)
+	}
+	sc := nd.Bool("selfcontained")
+	c := NewCodecWithCompression(lz4.Compressor{})
+	buf := &bytes.Buffer{}
+	err := c.EncodeSegment(&Segment{Header: &Header{IsSelfContained: sc}, Payload: &Payload{UncompressedData: p}}, buf)
+	nd.Assert(err == nil, "an incompressible payload of legal length encodes with LZ4 (uncompressed fallback)")
+	if err != nil {
+		return
+	}
+	b := buf.Bytes()
+	nd.Assert(len(b) == 8+n+4, "fallback: header, the raw payload, CRC-32")
+	if len(b) != 8+n+4 {
+		return
+	}
+	nd.Assert(bytes.Equal(b[:8], refHeaderCompressed(uint32(n), 0, sc)), "fallback header: raw length in the first field, uncompressed length field 0")
+	nd.Assert(bytes.Equal(b[8:8+n], p), "fallback: payload transmitted raw")
+	g, err := c.DecodeSegment(buf)
+	nd.Assert(err == nil, "the fallback segment decodes")
+	if err == nil {
+		nd.Assert(bytes.Equal(g.Payload.UncompressedData, p), "payload round trip")
+		nd.Assert(g.Header.IsSelfContained == sc, "flag round trip")
+	}
+}
+
+func VerifC06_SegmentLZ4_n131071_incompressible() { verifSegmentIncompressible(MaxPayloadLength) }
+func VerifC06_SegmentLZ4_n130600_incompressible() { verifSegmentIncompressible(130600) }
+func VerifC06_SegmentLZ4_n40_incompressible()     { verifSegmentIncompressible(40) }
+
 // ---- (3) refusal above the maximum ----
 
 func VerifC06_RefuseTooLarge() {
